@@ -272,6 +272,111 @@ def iters_tie(rep, hbin, seed):
     return ok, info
 
 
+def verbose_tie(rep, hbin, seed):
+    """the FULL records of the real VerbosePreOrderIter (TreeLike::verbose_pre_order_iter through Miniscript and the
+    concrete Policy: node, parent, index, n_children_yielded, is_complete) vs verbose_order of Ms/VerboseIterModel.v,
+    compared item by item inside Coq"""
+    tdir = os.path.join(vlib.COQ, "Tables")
+    p = vlib.sh([hbin, "robust", "verbose", str(seed)], timeout=600)
+    if p.returncode != 0:
+        raise RuntimeError("robust verbose failed: " + p.stderr[-1500:])
+    open(os.path.join(tdir, "VerboseIterCasesGen.v"), "w").write(p.stdout)
+    m = re.search(r"VERBOSE rows=(\d+) \(miniscript (\d+), policy (\d+)\) items=(\d+)", p.stderr)
+    rows = [int(x) for x in m.groups()] if m else [0, 0, 0, 0]
+    c1 = vlib.coqc("Tables/VerboseIterCasesGen.v")
+    if c1.returncode != 0:
+        raise RuntimeError("VerboseIterCasesGen.v does not compile: " + c1.stderr[-1500:])
+    c2 = vlib.coqc("Tables/VerboseIterCasesCheck.v")
+    flat = re.sub(r"\s+", " ", c2.stdout)
+    mb = re.search(r"= (\[.*?\]) : list \(N \* N\)", flat)
+    mc = re.search(r"= \((\d+)%nat, (\d+)%nat, (\d+)%nat, (\d+)%nat\)", flat)
+    counted = [int(x) for x in mc.groups()] if mc else [0, 0, 0, 0]
+    panics = dict((int(a), b) for a, b in re.findall(r"^VPANIC (\d+) (.*)$", p.stderr, flags=re.M))
+    # the table Coq saw must be the table the engine announced (rows, items), and must not be empty
+    ok = (c2.returncode == 0 and bool(mb) and mb.group(1) == "[]" and not panics
+          and rows[0] > 0 and counted[0] == rows[0] and counted[1] == rows[3])
+    info = {"trees": rows[0], "from_miniscript": rows[1], "from_concrete_policy": rows[2], "items_compared": rows[3],
+            "tree_nodes": counted[2], "skipped_texts (no context parses them)": len(re.findall(r"^VSKIP ", p.stderr, flags=re.M)),
+            "compared": "label of node, label of parent, index, n_children_yielded, is_complete of every yielded item",
+            "all_equal_inside_coq": ok}
+    if not ok:
+        names = dict((int(a), b) for a, b in re.findall(r"^VROW (\d+) (.*)$", p.stderr, flags=re.M))
+        items = dict((int(a), b.split(";") if b else []) for a, b in re.findall(r"^VITEMS (\d+) ?(.*)$", p.stderr, flags=re.M))
+        bad = [(int(i), int(j)) for i, j in re.findall(r"\((\d+), (\d+)\)", mb.group(1))] if mb else []
+        # verbose_bad_detail: (row, position, implementation's item, model's item)
+        md = re.search(r"= (\[.*\]) : list \(N \* N \* option", flat[mb.end():]) if mb else None
+        det = {}
+        if md:
+            for i, j, a, b in re.findall(r"\((\d+), (\d+), (None|Some \(.*?\)), (None|Some \(.*?\))\)(?=; \(\d|\])", md.group(1)):
+                det[(int(i), int(j))] = (a, b)
+        def impl_item(i, j):
+            v = items.get(i, [])
+            return v[j] if j < len(v) else "none (the implementation yielded %d items%s)" % (len(v), ", then panicked" if i in panics else "")
+        lines, recs = [], []
+        for i, j in bad:
+            a, b = det.get((i, j), ("?", "?"))
+            lines.append("row %d (%s): first differing item %d: implementation (label,parent,index,n_children_yielded,is_complete) = %s, model = %s%s" % (
+                i, names.get(i, "?")[:200], j, impl_item(i, j), b, " [the implementation PANICKED]" if i in panics else ""))
+            recs.append({"row": i, "tree": names.get(i, "?"), "first_differing_item": j, "implementation_item": impl_item(i, j),
+                         "implementation_item_as_seen_by_coq": a, "model_item": b, "implementation_items": len(items.get(i, [])),
+                         "implementation_panicked": i in panics})
+        if not mb:
+            lines.append("VerboseIterCasesCheck.v did not evaluate: " + (c2.stderr or c2.stdout)[-600:])
+        elif not bad and not panics:
+            lines.append("the table compared inside Coq is not the table the engine announced: engine rows=%d items=%d, Coq rows=%d items=%d" % (
+                rows[0], rows[3], counted[0], counted[1]))
+        pm = re.findall(r"^VPANICMSG (.*)$", p.stderr, flags=re.M)
+        rep.violation("verbose-iter-tie", "the compiled VerbosePreOrderIter and verbose_order of Ms/VerboseIterModel.v disagree (%d of %d trees): %s" % (
+                          len(bad), rows[0], " | ".join(lines[:6])),
+                      {"property": "C11", "broken_tie": "Tables/VerboseIterCasesCheck.v: verbose_bad = []",
+                       "differing_rows": recs[:40],
+                       "implementation_panics_on": [panics[i] for i in sorted(panics)][:5], "panic_messages": pm[:5],
+                       "seed": seed,
+                       "replay": "python3 tools/check.py C11"}, found_input=bool(panics))
+    return ok, info
+
+
+DISPLAY_CODE = {1: "the model's parser rejects the text the library printed", 2: "the loop model (display_iter) prints a different text",
+                3: "the loop model does not finish"}
+
+
+def display_tie(rep, hbin, seed):
+    """the `Display` text of every miniscript row of `robust verbose` (written by conditional_fmt over VerbosePreOrderIter) vs
+    display_iter of Ms/DisplayIterModel.v (the loop over verbose_order of the DisplayNode tree), compared inside Coq;
+    needs Tables/VerboseIterCasesGen.vo of verbose_tie"""
+    c = vlib.coqc("Tables/DisplayIterCasesCheck.v")
+    flat = re.sub(r"\s+", " ", c.stdout)
+    mb = re.search(r"= (\[.*?\]) : list \(N \* N\)", flat)
+    mc = re.search(r"= \((\d+)%nat, (\d+)%nat\)", flat)
+    n_texts, n_bytes = (int(mc.group(1)), int(mc.group(2))) if mc else (0, 0)
+    ok = c.returncode == 0 and bool(mb) and mb.group(1) == "[]" and n_texts > 0
+    info = {"display_texts_compared": n_texts, "bytes": n_bytes, "all_equal_inside_coq": ok,
+            "compared": "real `Display` text of the miniscript vs display_iter (loop over the verbose items) of the AST the model parses from it"}
+    if not ok:
+        p = vlib.sh([hbin, "robust", "verbose", str(seed)], timeout=600)
+        names = dict((int(a), b) for a, b in re.findall(r"^VROW (\d+) (.*)$", p.stderr, flags=re.M))
+        bad = [(int(i), int(k)) for i, k in re.findall(r"\((\d+), (\d+)\)", mb.group(1))] if mb else []
+        lines = ["row %d (%s): %s" % (i, names.get(i, "?")[:200], DISPLAY_CODE.get(k, k)) for i, k in bad[:6]]
+        if not mb:
+            lines.append("DisplayIterCasesCheck.v did not evaluate: " + (c.stderr or c.stdout)[-600:])
+        rep.violation("display-iter-tie", "the text written by the compiled `Display for Miniscript` and display_iter of Ms/DisplayIterModel.v disagree (%d of %d texts): %s" % (
+                          len(bad), n_texts, " | ".join(lines)),
+                      {"property": "C11", "broken_tie": "Tables/DisplayIterCasesCheck.v: display_bad = []",
+                       "differing_rows": [{"row": i, "miniscript": names.get(i, "?"), "code": k, "meaning": DISPLAY_CODE.get(k, k)} for i, k in bad[:40]],
+                       "seed": seed, "replay": "python3 tools/check.py C11"}, found_input=False)
+    return ok, info
+
+
+def verbose_props(rep):
+    """Properties/C11VerboseIter.v: recompile, Print Assumptions must be closed"""
+    thms, blocks, problems, _ = vlib.check_property_file("C11VerboseIter")
+    if problems:
+        rep.violation("property-file", "; ".join(problems),
+                      {"property": "C11", "broken_tie": "Properties/C11VerboseIter.v", "problems": problems}, found_input=False)
+        return False, thms
+    return True, thms
+
+
 def run(rep, tier, seed, replay):
     hbin = vlib.build_harness()
     if replay:
@@ -279,9 +384,16 @@ def run(rep, tier, seed, replay):
     ok, thms = vlib.proof_gates(rep, "C11")
     tie_ok, tie_rows = (False, [0, 0, 0, 0])
     it_ok, it_info = (False, {})
+    vt_ok, vt_info = (False, {})
+    dt_ok, dt_info = (False, {})
+    vp_ok, vp_thms = (False, [])
     if ok:
+        vp_ok, vp_thms = verbose_props(rep)
         tie_ok, tie_rows = models_tie(rep, hbin, seed)
         it_ok, it_info = iters_tie(rep, hbin, seed)
+        vt_ok, vt_info = verbose_tie(rep, hbin, seed)
+        dt_ok, dt_info = display_tie(rep, hbin, seed)
+        rep.coverage["theorems"] = list(rep.coverage.get("theorems", [])) + vp_thms
 
     # ---- panic-site inventory
     new, gone, cur, old = panic_sites.diff(vlib.REPO)
@@ -342,14 +454,18 @@ def run(rep, tier, seed, replay):
     unrep_keys = {u["key"] for u in unreproduced}
     clean = sum(1 for name in classes
                 if not any(f["class"] == name and f["key"] not in known_keys and f["key"] not in unrep_keys for f in fails))
-    obligations = len(thms) + 2 + 1 + n_classes
-    discharged = (len(thms) if ok else 0) + (1 if tie_ok else 0) + (1 if it_ok else 0) + 1 + clean
+    obligations = len(thms) + len(vp_thms) + 4 + 1 + n_classes
+    discharged = ((len(thms) if ok else 0) + (len(vp_thms) if vp_ok else 0) + (1 if tie_ok else 0) + (1 if it_ok else 0) + (1 if vt_ok else 0)
+                  + (1 if dt_ok else 0) + 1 + clean)
     rep.coverage.update({
         "obligations": obligations, "discharged": discharged,
-        "obligation_kinds": "%d theorems of Properties/C11.v + 2 model/code ties inside Coq (RobustCasesCheck, RobustIterCasesCheck) + inventory comparison + one 'no unknown failure' obligation per entry-point class (%d)" % (len(thms), n_classes),
+        "obligation_kinds": "%d theorems of Properties/C11.v + %d of Properties/C11VerboseIter.v + 4 model/code ties inside Coq (RobustCasesCheck, RobustIterCasesCheck, VerboseIterCasesCheck, DisplayIterCasesCheck) + inventory comparison + one 'no unknown failure' obligation per entry-point class (%d)" % (len(thms), len(vp_thms), n_classes),
         "iterator_and_taptree_tie": it_info,
+        "verbose_iter_tie": vt_info,
+        "display_iter_tie": dt_info,
         "checker_cmd": "make -C coq; coqc Properties/C11.v; verif-harness robust models | coqc Tables/RobustCasesGen.v Tables/RobustCasesCheck.v; "
                        "verif-harness robust iters | coqc Tables/RobustIterCasesGen.v Tables/RobustIterCasesCheck.v; "
+                       "coqc Properties/C11VerboseIter.v; verif-harness robust verbose | coqc Tables/VerboseIterCasesGen.v Tables/VerboseIterCasesCheck.v Tables/DisplayIterCasesCheck.v; "
                        "tools/panic_sites.py diff; verif-harness robust all <seed> <tier> --no-shrink",
         "trusted_base": vlib.TRUSTED_BASE_COMMON + [
             "harness/src/robust*.rs: supervisor, guards (catch_unwind, wall clock, counting allocator, thread stack), generators, shrinker",
@@ -393,6 +509,9 @@ def run_replay(rep, hbin, path):
         if ok:
             models_tie(rep, hbin, rep.seed)
             iters_tie(rep, hbin, rep.seed)
+            verbose_tie(rep, hbin, rep.seed)
+            display_tie(rep, hbin, rep.seed)
+            verbose_props(rep)
         return
     line = obj["input_line"]
     cls = obj["class"]
